@@ -64,9 +64,10 @@ def run(chk):
     thorough = chk.tier == "thorough"
     vf._copy_spec(os.path.join(vf.SPEC, "Consensus"))
     if thorough:
-        big = dict(rewards=(0, 1, 3, 100, 100000001), crc=2, dpos=2, cand=2, ccrc=(0, 1, 2), cnorm=(1, 2), mod=3)
+        big = dict(rewards=(0, 3, 100, 100000001), crc=2, dpos=2, cand=2, ccrc=(0, 1, 2), cnorm=(1, 2), mod=3)
         runs = [("era %d" % e, cfg([e], **big)) for e in (0, 1, 2)]
-        runs += [("era 3 DPOS", cfg([3], pows=("FALSE",), **big)), ("era 3 POW", cfg([3], pows=("TRUE",), **big)),
+        runs += [("era 3 DPOS", cfg([3], pows=("FALSE",), **big)), ("era 3 POW (everything destroyed)", cfg([3], pows=("TRUE",), rewards=(0, 1, 100000001), crc=1, dpos=2, cand=1,
+                                                        ccrc=(0, 1, 2), cnorm=(1, 2))),
                  ("all eras, votes {0,1,2,5}, 3 DPoS arbiters", cfg([0, 1, 2, 3], votes=(0, 1, 2, 5), rewards=(3, 100),
                                                                      crc=1, dpos=3, cand=1, ccrc=(1, 3), cnorm=(2,), mod=2))]
     else:
